@@ -1,7 +1,7 @@
 """C05 - repeated queries return bit-identical values whatever happened in between.
 
 "Bit-identical" is decided as: the second evaluation performs the same primitive operations on the same operands
-(T1/T2).  Three contract facts give that: (1) stability -- every tree-mutating function only refines leaves
+(T1/T2).  Three contract facts give that: (1) stability -- every tree-mutating function, including the dependency-tree refinement, only refines leaves
 (`refines` frame, for all histories); (2) value determinism and cache transparency -- a node's (W, H) is a function of
 stable fields and seeded noise only, the caches may forget but never alter; (3) wrappers forward queries to the same
 object without writing to it;  (4) value-level history independence over the reals -- the ghost-path chain (the same contracts that
@@ -52,11 +52,16 @@ def job_emptydict(E, rep, tier):
         rep.add('C05/_EmptyDict.__getitem__/raises.KeyError', 'raises', 'discharged' if e.cls == 'KeyError' else 'refuted', 'pyvc-exec')
 
 
+def _deptree():
+    from props import C07
+    return C07.make_deptree_job('C05')
+
+
 def jobs(tier):
     P = 'C05'
     return [TJ.make(P, 'split_exact', False), TJ.make(P, 'split', False), TJ.make(P, 'loc_inner', False), TJ.make(P, 'loc', False),
             TJ.make(P, 'split_exact', True), TJ.make(P, 'split', True), TJ.make(P, 'loc_inner', True), TJ.make(P, 'loc', True), TJ.make(P, 'call', True),
-            TJ.job_pure_lemmas(P),
+            TJ.job_pure_lemmas(P), Job('dependency-tree', _deptree()),
             TJ.job_split_algebra(P, ()), Job('lru', job_lru), Job('emptydict', job_emptydict), WJ.job_wrappers(P)] + \
         HJ.symbolic_history_jobs(P, 2) + (HJ.symbolic_history_jobs(P, 3) if tier == 'thorough' else [])
 
